@@ -1,5 +1,6 @@
 import Huginn.Lemmas.SigText
 import Huginn.Lemmas.SigTextHttp
+import Huginn.Lemmas.SigTextDoc
 import Huginn.Lemmas.SigTextBundledTcp
 import Huginn.Lemmas.SigTextBundledHttpA
 import Huginn.Lemmas.SigTextBundledHttpB
@@ -67,28 +68,8 @@ theorem gen_tables_complete :
 
 /-- **TCP signatures print to text that parses back to the same value** — every value whose
 numeric fields fit their Rust widths; option and quirk lists of any length, also empty. -/
-theorem tcp_print_parse (s : TcpSig) (h : WFTcp s) : parseTcpSigFull (printTcpSig s) = some s := by
-  obtain ⟨ver, ittl, olen, mss, wsize, wscale, olayout, quirks, pclass⟩ := s
-  have e : printTcpSig ⟨ver, ittl, olen, mss, wsize, wscale, olayout, quirks, pclass⟩ =
-      printIpVersion ver ++ (':' :: (printTtl ittl ++ (':' :: (natDigits olen ++ (':' :: (printOptNat mss ++
-      (':' :: (printWSize wsize ++ (',' :: (printOptNat wscale ++ (':' :: (joinComma printOpt olayout ++
-      (':' :: (joinComma printQuirk quirks ++ (':' :: (printPayload pclass ++ [])))))))))))))))) := by
-    simp [printTcpSig]
-  have hol : ∀ r, sepList0 comma parseOpt (joinComma printOpt olayout ++ ':' :: r) = some (olayout, ':' :: r) :=
-    fun r => sepList0_joinComma parseOpt printOpt olayout (Or.inr ⟨r, rfl⟩)
-      (fun o ho r' hr' => parseOpt_print o (h.olayout o ho) hr') (fun _ => parseOpt_colon r)
-  have hq : ∀ r, sepList0 comma parseQuirk (joinComma printQuirk quirks ++ ':' :: r) = some (quirks, ':' :: r) :=
-    fun r => sepList0_joinComma parseQuirk printQuirk quirks (Or.inr ⟨r, rfl⟩)
-      (fun q _ r' _ => parseQuirk_print q r') (fun _ => parseQuirk_colon r)
-  unfold parseTcpSigFull full parseTcpSig
-  rw [e]
-  simp only [parseIpVersion_print, colon_cons, comma_cons, Option.bind_eq_bind, Option.bind_some,
-    fun r => parseTtl_print ittl h.ittl (Delim.colon r),
-    fun r => number_natDigits (show olen ≤ u8Max from h.olen) (NoDigit.cons (by decide : ':'.isDigit = false) r),
-    fun r => optNum_print u16Max mss h.mss (Delim.colon r),
-    fun r => parseWSize_print wsize h.wsize (Delim.comma r),
-    fun r => optNum_print u8Max wscale h.wscale (Delim.colon r),
-    hol, hq, parsePayload_print, Option.pure_def]
+theorem tcp_print_parse (s : TcpSig) (h : WFTcp s) : parseTcpSigFull (printTcpSig s) = some s :=
+  parseTcpSigFull_print s h
 
 /-- non-vacuity: a well-formed signature with every kind of field (and one with empty lists) -/
 example : WFTcp ⟨.v4, .distance 64 3, 0, some 1460, .mss 20, some 7, [.mss, .eol 2, .unknown 77], [.df, .nonZeroID], .zero⟩ ∧
@@ -108,24 +89,8 @@ only `habsent` needs non-empty names.) -/
 theorem http_print_parse_partial (s : HttpSigL) (hv : versionInGrammar s.version = true)
     (hh : ∀ h ∈ s.horder, WFHdrL h) (ha : ∀ h ∈ s.habsent, WFHdrL h ∧ h.name ≠ [])
     (hkf : ¬ Huginn.KF.C06.httpEmptyHorder s) :
-    parseHttpSigFullL (printHttpSigL s) = some s := by
-  obtain ⟨ver, horder, habsent, expsw⟩ := s
-  cases horder with
-  | nil => exact absurd rfl hkf
-  | cons x xs =>
-    have e : printHttpSigL ⟨ver, x :: xs, habsent, expsw⟩ =
-        printHttpVersion ver ++ (':' :: (joinComma printHeaderL (x :: xs) ++
-          (':' :: (joinComma printHeaderL habsent ++ (':' :: expsw))))) := by
-      simp [printHttpSigL]
-    have h1 : ∀ r, sepList1 comma parseHeaderL (joinComma printHeaderL (x :: xs) ++ ':' :: r) =
-        some (x :: xs, ':' :: r) :=
-      fun r => sepList1_joinComma parseHeaderL printHeaderL x xs (Or.inr ⟨r, rfl⟩)
-        (fun h hm r' hr' => parseHeaderL_print h (hh h hm) hr')
-    obtain ⟨L, h2, h3⟩ := habsent_parse habsent ha expsw
-    unfold parseHttpSigFullL full parseHttpSigL
-    rw [e]
-    simp only [parseHttpVersion_print ver hv, colon_cons, Option.bind_eq_bind, Option.bind_some, h1, h2,
-      rest, Option.pure_def, Option.getD_some, h3]
+    parseHttpSigFullL (printHttpSigL s) = some s :=
+  parseHttpSigFullL_print s hv hh ha hkf
 
 /-- the same on the shared `Sig` types (`String` fields) -/
 theorem http_print_parse (s : HttpSig) (h : WFHttp s) (hkf : ¬ Huginn.KF.C06.httpEmptyHorder (.ofSig s)) :
@@ -147,6 +112,106 @@ theorem kf_httpEmptyHorder_witness : ¬ FullHttpPrintParse := by
 example : WFHttpL ⟨.any, [⟨false, "Host".toList, none⟩, ⟨true, "Accept".toList, some ",*/*;q=".toList⟩],
     [⟨false, "Keep-Alive".toList, none⟩], "Firefox/".toList⟩ ∧
     ¬ Huginn.KF.C06.httpEmptyHorder ⟨.any, [⟨false, "Host".toList, none⟩], [], []⟩ := by decide +kernel
+
+/-! ### the database loader -/
+
+/-- The full statement for the loader: every well-formed document (sections in any order and repeated,
+comments, blank lines, any layout around `=`, `classes`/`ua_os` lines anywhere, unknown modules, `sys`
+lines) loads to exactly the database it denotes.  **False on the current tree** in two classes:
+`ua_os` rules in p0f syntax are dropped (`kf_uaOsLossy_witness`), and an HTTP signature with an empty
+`horder` comes back with a spurious header (`kf_docEmptyHorder_witness`). -/
+def FullLoadDoc : Prop := ∀ d : Doc, WFDoc d → loadDb (renderDoc d) = .ok (flatten d)
+
+/-- **Loading the text of a document yields exactly the classes, MTU groups, `ua_os` rules, labels and
+signatures written in it** — in file order, each signature under the label and table it was written
+under, nothing dropped, merged or duplicated — for every well-formed document outside the two
+known-finding classes.  Unbounded in the number of sections, items, and in every text length. -/
+theorem load_doc_partial (d : Doc) (h : WFDoc d) (h1 : ¬ Huginn.KF.C06.uaOsLossy d)
+    (h2 : ¬ Huginn.KF.C06.docEmptyHorder d) : loadDb (renderDoc d) = .ok (flatten d) :=
+  loadDb_renderDoc d ⟨h, h1, h2⟩
+
+/-- `ua_os = iOS=[iPad]` loads as the rule `iOS` without its text -/
+theorem kf_uaOsLossy_witness : ¬ FullLoadDoc := by
+  intro h
+  have := h ⟨[.uaOs {} [("iOS".toList, some "iPad".toList)]], []⟩ (by decide +kernel)
+  revert this
+  decide +kernel
+
+/-- the HTTP finding at document level: `sig = 1:::x` under a label -/
+theorem kf_docEmptyHorder_witness :
+    ¬ (∀ d : Doc, WFDoc d → ¬ Huginn.KF.C06.uaOsLossy d → loadDb (renderDoc d) = .ok (flatten d)) := by
+  intro h
+  have := h ⟨[], [.http [] [] false [.label {} ⟨.specified, none, ['x'], none⟩,
+    .sig {} ⟨.v11, [], [], ['x']⟩]]⟩ (by decide +kernel) (by decide +kernel)
+  revert this
+  decide +kernel
+
+/-- non-vacuity of `load_doc_partial`: a document with every kind of section and line -/
+example : ∃ d : Doc, WFDoc d ∧ ¬ Huginn.KF.C06.uaOsLossy d ∧ ¬ Huginn.KF.C06.docEmptyHorder d ∧
+    d.sections.length = 5 ∧ (flatten d).tcpReq.length = 2 ∧ (flatten d).mtu.length = 1 :=
+  ⟨⟨[.comment [] " p0f".toList, .blank [], .classes {} ["win".toList, "unix".toList]],
+    [.mtu [] [] [.label {} "Ethernet or modem".toList, .sig { pre := "   ".toList } 576, .sig {} 1500],
+     .tcp [' '] ['\r'] false [.label {} ⟨.specified, some "unix".toList, "Linux".toList, some "3.x".toList⟩,
+        .sig {} ⟨.any, .value 64, 0, none, .mss 20, some 10, [.mss, .sok, .ts, .nop, .ws], [.df, .nonZeroID], .zero⟩],
+     .http [] [] false [.misc (.uaOs {} [("Linux".toList, none)]),
+        .label {} ⟨.specified, none, "Firefox".toList, some "2.x".toList⟩, .sys {} "Windows,@unix".toList,
+        .sig {} ⟨.any, [⟨false, "Host".toList, none⟩], [], "Firefox/".toList⟩],
+     .other [] [] "tls".toList none [.sig {} "anything".toList],
+     .tcp [] [] false [.label {} ⟨.generic, none, "Again".toList, none⟩]]⟩,
+   by decide +kernel⟩
+
+/-- **A faulty `label`/`sig` line is an error, not a partial load**: after any document the loader
+reads, if the line is one `loadNamed` rejects in the state reached (see the `fault_*` theorems for the
+faults the statement names), the whole text is rejected with that error — whatever follows it. -/
+theorem load_rejects (d : Doc) (h : WFDoc d) (h1 : ¬ Huginn.KF.C06.uaOsLossy d)
+    (h2 : ¬ Huginn.KF.C06.docEmptyHorder d) {m : Str} {dd : Option Str}
+    (hmod : lastMod none d.sections = some (m, dd))
+    {pad : Pad} (hp : WFPad pad) {n : String} (hn : ItemName n) {v : Str} (hv : LineSafe v)
+    {e : LoadErr} (he : loadNamed (flatten d) m dd (coreOf pad n.toList v) = .error e)
+    (rest : List Str) (hrest : ∀ l ∈ rest, '\n' ∉ l) :
+    loadDb (renderLines (docLines d ++ named pad n v :: rest)) = .error e :=
+  loadDb_fault d ⟨h, h1, h2⟩ hmod hp hn hv he rest hrest
+
+/-- a line outside any module (not blank, comment, `classes`, `ua_os` or a header) is an error -/
+theorem load_rejects_outside (pre : List Misc)
+    (hpre : ∀ m ∈ pre, WFMisc m ∧ ¬ Huginn.KF.C06.miscUnreadable m) (l : Str)
+    (h1 : trim l ≠ []) (h2 : (trim l).head? ≠ some ';') (h3 : (trim l).head? ≠ some '[')
+    (h4 : stripPrefix classesKw (trim l) = none) (h5 : stripPrefix uaOsKw (trim l) = none)
+    (hl : '\n' ∉ l) (rest : List Str) (hrest : ∀ x ∈ rest, '\n' ∉ x) :
+    loadDb (renderLines (pre.map renderMisc ++ l :: rest)) = .error .outside :=
+  loadDb_outside pre hpre l h1 h2 h3 h4 h5 hl rest hrest
+
+/-- fault: a signature before any label of its table -/
+theorem fault_sig_without_label (db : Db) {m : Str} {d : Option Str} {t : TableId}
+    (ht : tableOf m d = some t) (hm : m ≠ mtuKw) {pad : Pad} (hp : WFPad pad) {v : Str} (hv : LineSafe v)
+    (he : tableEmpty db t) :
+    loadNamed db m d (coreOf pad "sig".toList v) = .error (noLabelErr t) :=
+  loadNamed_sig_noLabel db ht hm hp hv he
+
+/-- fault: a signature line whose text does not parse -/
+theorem fault_unparsable_sig (db : Db) {m : Str} {d : Option Str} {t : TableId}
+    (ht : tableOf m d = some t) (hm : m ≠ mtuKw) {pad : Pad} (hp : WFPad pad) {v : Str} (hv : LineSafe v)
+    (hne : ¬ tableEmpty db t) (hbad : sigParses t v = false) :
+    loadNamed db m d (coreOf pad "sig".toList v) = .error (sigErr t) :=
+  loadNamed_sig_unparsable db ht hm hp hv hne hbad
+
+/-- fault: a label that does not parse (in any module except `mtu`, known or not) -/
+theorem fault_unparsable_label (db : Db) {m : Str} (d : Option Str) (hm : m ≠ mtuKw) {pad : Pad}
+    (hp : WFPad pad) {v : Str} (hv : LineSafe v) (hbad : parseLabelL v = none) :
+    loadNamed db m d (coreOf pad "label".toList v) = .error .label :=
+  loadNamed_label_unparsable db d hm hp hv hbad
+
+/-- fault: an MTU value before any MTU label / that is not a 16-bit decimal number -/
+theorem fault_mtu (db : Db) (d : Option Str) {pad : Pad} (hp : WFPad pad) {v : Str} (hv : LineSafe v) :
+    (db.mtu = [] → loadNamed db mtuKw d (coreOf pad "sig".toList v) = .error .mtuNoLabel) ∧
+    (db.mtu ≠ [] → mtuValueOk v = false →
+      loadNamed db mtuKw d (coreOf pad "sig".toList v) = .error .mtuValue) :=
+  ⟨loadNamed_mtu_noLabel db d hp hv, loadNamed_mtu_badValue db d hp hv⟩
+
+/-- non-vacuity of `load_rejects`: `sig = 4:64:0:*:*,*:::` after `[tcp:request]` + a label -/
+example : loadDb (renderLines (docLines ⟨[], [.tcp [] [] false [.label {} ⟨.specified, none, ['x'], none⟩]]⟩ ++
+    [named {} "sig" "4:64:0:*:*,*:::".toList, "sig = 4:64:0:*:*,*:::0".toList])) = .error .tcpSig := by
+  decide +kernel
 
 /-! ### every signature line of the bundled p0f.fp -/
 
